@@ -118,13 +118,15 @@ func (p *Parser) advance() (Token, error) {
 	p.current = &t
 	p.didEndStatement = false
 
-	if t.Tag == Newline {
-		// pretend the newline didn't exist and set didEndStatement
-		oldPrev := p.previous
-		newToken, err := p.advance()
-		p.previous = oldPrev
+	// pretend newlines didn't exist and set didEndStatement. A loop, not
+	// recursion: a program may contain millions of blank lines in a row
+	for t.Tag == Newline {
 		p.didEndStatement = true
-		return newToken, err
+		t, err = p.lexer.Next()
+		if err != nil {
+			return t, err
+		}
+		p.current = &t
 	}
 
 	return t, nil
